@@ -18,7 +18,7 @@ type Node struct {
 	cons     bool
 }
 
-func (n *Node) Tag() byte        { return n.Id[0] }
+func (n *Node) Tag() byte         { return n.Id[0] }
 func (n *Node) Constructed() bool { return n.cons }
 
 var errTrunc = errors.New("truncated")
